@@ -49,6 +49,7 @@ WidthOf(C, e) ==
     [] e.k = "part" -> e.hi - e.lo + 1
     [] e.k = "in"   -> 1
     [] e.k = "dyn"  -> 1
+    [] e.k = "dyni" -> 1
     [] e.k = "size" -> 32
     [] e.k = "sum"  -> C.W.lists[AbsP(C.own, e.l)].w + 8
     [] e.k = "prod" -> 64
@@ -63,6 +64,7 @@ SignedOf(C, e) ==
     [] e.k = "part" -> FALSE
     [] e.k = "in"   -> FALSE
     [] e.k = "dyn"  -> FALSE
+    [] e.k = "dyni" -> FALSE
     [] e.k = "size" -> FALSE
     [] e.k = "sum"  -> C.W.lists[AbsP(C.own, e.l)].s
     [] e.k = "prod" -> C.W.lists[AbsP(C.own, e.l)].s
@@ -169,6 +171,9 @@ Eval(C, e, cw) ==
          LET v == Eval(C, e.e, 0) IN IF IsU(v) THEN U ELSE Slice(v, e.hi, e.lo)
     [] e.k = "in"  -> BvOf(EvalIn(C, e))
     [] e.k = "dyn" -> BvOf(HoldsBlock(C, AbsP(C.own, e.o), e.b))
+    \* the dynamic block b of the element of object list e.l that the index expression selects (ol[i].b() inside a foreach)
+    [] e.k = "dyni" -> LET iv == Eval(C, e.i, 0) IN
+                       IF IsU(iv) THEN U ELSE BvOf(HoldsBlock(C, ElemPath(AbsP(C.own, e.l), ToNat(iv)), e.b))
     [] e.k = "size" -> NatBits(C.sz[AbsP(C.own, e.l)], 32)
     [] e.k = "sum" -> LET w == MaxN(cw, C.W.lists[AbsP(C.own, e.l)].w + 8) IN
                       SumRec(C, AbsP(C.own, e.l), 0, w, Zero(w))
